@@ -9,6 +9,7 @@ import (
 	"sort"
 	"strings"
 	"sync"
+	"sync/atomic"
 	"time"
 
 	"gocv/smt"
@@ -166,7 +167,6 @@ func Check(m *sx.Machine, units []*Unit, cfg Config) *Report {
 	// solve
 	outs := make([]*Outcome, len(groups))
 	var wg sync.WaitGroup
-	sem := make(chan struct{}, cfg.Workers)
 	for i, g := range groups {
 		o := &Outcome{Name: g.name, Unit: g.unit, Kind: g.obls[0].Kind, Pos: g.obls[0].Pos, Note: g.obls[0].Note, Paths: len(g.obls), Bounded: g.unit.Bounded}
 		outs[i] = o
@@ -196,10 +196,8 @@ func Check(m *sx.Machine, units []*Unit, cfg Config) *Report {
 		o.Query = q
 		o.Size = smt.Size(goal)
 		wg.Add(1)
-		sem <- struct{}{}
 		go func(o *Outcome, q *smt.Query, g *rawObl, goals []*smt.Term) {
 			defer wg.Done()
-			defer func() { <-sem }()
 			to := cfg.Timeout
 			if g.unit.Timeout > 0 {
 				to = g.unit.Timeout
@@ -215,25 +213,55 @@ func Check(m *sx.Machine, units []*Unit, cfg Config) *Report {
 				spent := r.Seconds
 				all := true
 				seen := map[int]bool{}
+				var todo []*smt.Term
 				for _, gi := range goals {
 					if gi.IsTrue() || seen[gi.ID] {
 						continue
 					}
 					seen[gi.ID] = true
-					qi := &smt.Query{Name: q.Name, Goal: gi, PreDecl: q.PreDecl, Prelude: q.Prelude, Hyps: arithAxioms(gi)}
-					for _, v := range smt.FreeVars(gi) {
-						if v.S.K == smt.KBV || v.S.K == smt.KBool || v.S.K == smt.KInt {
-							qi.Values = append(qi.Values, v)
+					todo = append(todo, gi)
+				}
+				type one struct {
+					r smt.Result
+					q *smt.Query
+				}
+				res := make([]one, len(todo))
+				var swg sync.WaitGroup
+				var stop int32
+				for k, gi := range todo {
+					swg.Add(1)
+					go func(k int, gi *smt.Term) {
+						defer swg.Done()
+						if atomic.LoadInt32(&stop) != 0 {
+							res[k].r.Status = "skipped"
+							return
 						}
-					}
-					ri := smt.Solve(qi, to)
-					spent += ri.Seconds
-					if ri.Status == "sat" {
-						r, q, all = ri, qi, false
+						qi := &smt.Query{Name: q.Name, Goal: gi, PreDecl: q.PreDecl, Prelude: q.Prelude, Hyps: arithAxioms(gi)}
+						for _, v := range smt.FreeVars(gi) {
+							if v.S.K == smt.KBV || v.S.K == smt.KBool || v.S.K == smt.KInt {
+								qi.Values = append(qi.Values, v)
+							}
+						}
+						res[k] = one{smt.Solve(qi, to), qi}
+						if res[k].r.Status == "sat" {
+							atomic.StoreInt32(&stop, 1)
+						}
+					}(k, gi)
+				}
+				swg.Wait()
+				for k := range res {
+					spent += res[k].r.Seconds
+					if res[k].r.Status == "sat" {
+						r, q, all = res[k].r, res[k].q, false
 						break
 					}
-					if ri.Status != "unsat" {
-						r, all = ri, false
+				}
+				if all {
+					for k := range res {
+						if res[k].r.Status != "unsat" {
+							r, all = res[k].r, false
+							break
+						}
 					}
 				}
 				if all {
